@@ -23,7 +23,6 @@ mod gen;
 #[path = "c01/wr.rs"]
 mod wr;
 
-use dicom_core::header::Header;
 use dicom_core::{Tag, VR};
 use dicom_object::{DicomCollector, FileMetaTableBuilder, InMemDicomObject, OpenFileOptions};
 use dicom_parser::dataset::lazy_read::LazyDataSetReader;
@@ -148,6 +147,12 @@ fn case(r: &mut Rng, i: u64, thorough: bool) -> String {
         };
         nodes.push(Node::Px { bot, frags });
         nodes.sort_by_key(|n| n.tag());
+    }
+    // sometimes an element after Pixel Data (Data Set Trailing Padding)
+    if nodes.iter().any(|n| n.tag() == Tag(0x7FE0, 0x0010)) && r.chance(1, 6) {
+        let k = r.usize(1, 4) * 2;
+        let v = dicom_core::PrimitiveValue::U8(r.bytes(k).into_iter().collect());
+        nodes.push(Node::El { tag: Tag(0xFFFC, 0xFFFC), vr: VR::OB, len: k as u32, val: v });
     }
     // data set bytes: the real writer on the object, or the reference encoding with explicit lengths
     let explicit_mode = r.below(3);
@@ -300,9 +305,53 @@ fn case(r: &mut Rng, i: u64, thorough: bool) -> String {
     s
 }
 
+/// `c06 wit <data set hex, Explicit VR LE>`: the whole-file / collector / fragment outputs for one hand-written data set
+fn witness(ds: &[u8]) -> String {
+    let mut file = Vec::new();
+    let m = InMemDicomObject::new_empty()
+        .with_meta(
+            FileMetaTableBuilder::new()
+                .transfer_syntax(TS_UIDS[1])
+                .media_storage_sop_class_uid("1.2.840.10008.5.1.4.1.1.7")
+                .media_storage_sop_instance_uid("1.2.3"),
+        )
+        .expect("meta");
+    m.write_all(&mut file).expect("write");
+    file.extend_from_slice(ds);
+    let file = &file[..];
+    let whole = dicom_object::from_reader(file).map(|o| tree(&o)).unwrap_or("err".into());
+    let mut c = collector(file);
+    let mut o = InMemDicomObject::new_empty();
+    let coll = match c.read_file_meta().is_ok() && c.read_dataset_to_end(&mut o).is_ok() {
+        true => tree(&o),
+        false => "err".into(),
+    };
+    let mut frs = Vec::new();
+    let mut c = collector(file);
+    for _ in 0..8 {
+        let mut b = Vec::new();
+        match c.read_next_fragment(&mut b) {
+            Ok(Some(n)) => frs.push(format!("fr:{}:{}", n, hex(&b))),
+            Ok(None) => {
+                frs.push("none".into());
+                break;
+            }
+            Err(_) => {
+                frs.push("err".into());
+                break;
+            }
+        }
+    }
+    format!("whole: {}\ncollector.read_dataset_to_end: {}\nread_next_fragment…: {}", whole, coll, frs.join(" "))
+}
+
 fn main() {
     let a = parse_args();
     quiet_panics();
+    if a.mode == "wit" {
+        println!("{}", witness(&unhex(&a.extra[0])));
+        return;
+    }
     let mut out = Out::new();
     for i in case_indices(&a) {
         let mut r = Rng::for_case(a.seed, i);
